@@ -56,7 +56,7 @@ def _pid_max():
 # TLC
 # ------------------------------------------------------------------------------------------------
 # the code as it is: (Dev_HugeOverflow, Dev_EpermOSError); flip to "FALSE" when the code is repaired
-AS_CODED = ("TRUE", "TRUE")
+AS_CODED = ("FALSE", "TRUE")      # Dev_HugeOverflow repaired by 420ac1b
 
 CFG = """CONSTANTS
   MaxOps = %d
